@@ -130,7 +130,6 @@ IsInbox(s) == Len(s) = 5 /\ UpperS(s) = INBOX
 
 ---------------------------------------------------------------------------
 (* well-known flags and mailbox attributes (RFC 9051 2.3.2, 7.3.1; RFC 6154, 8457, 5788) *)
-S2(a, b) == a \o b
 WKFlags == {
   <<92, 83, 101, 101, 110>>,                              \* \Seen
   <<92, 65, 110, 115, 119, 101, 114, 101, 100>>,          \* \Answered
@@ -205,11 +204,13 @@ Fail == R(FALSE, <<>>, 0, StrForm("none"))
 RECURSIVE BSRun(_, _, _)
 BSRun(b, j, lo) == IF j < lo \/ b[j] # BSL THEN 0 ELSE 1 + BSRun(b, j - 1, lo)
 
-RECURSIVE UnescRec(_)
-UnescRec(c) == IF Len(c) = 0 THEN <<>>
-               ELSE IF c[1] = BSL THEN (IF Len(c) >= 2 THEN <<c[2]>> \o UnescRec(Drop(c, 2)) ELSE <<>>)
-               ELSE <<c[1]>> \o UnescRec(Tail(c))
-Unesc(c) == IF \A i \in 1..Len(c) : c[i] # BSL THEN c ELSE UnescRec(c)
+\* remove the escaping backslashes (piecewise: one step per escape)
+RECURSIVE Unesc(_)
+Unesc(c) == LET bs == {i \in 1..Len(c) : c[i] = BSL} IN
+            IF bs = {} THEN c
+            ELSE LET p == MinOf(bs) IN
+                 IF p = Len(c) THEN SubSeq(c, 1, p - 1)
+                 ELSE SubSeq(c, 1, p - 1) \o <<c[p + 1]>> \o Unesc(SubSeq(c, p + 2, Len(c)))
 \* a backslash that escapes (even run before it) something other than DQUOTE or "\"
 GratEsc(c) == \E p \in 1..(Len(c) - 1) :
                 c[p] = BSL /\ BSRun(c, p - 1, 1) % 2 = 0 /\ c[p + 1] \notin {DQ, BSL}
@@ -548,7 +549,6 @@ VARIABLES phase,  \* "pick" | "have"
           val
 vars == <<phase, kind, pre, val>>
 
-B(s) == s
 LongClasses ==
   {[n |-> n, fill |-> 97, ins |-> ins] :
      n \in {4095, 4096, 4097}, ins \in {<<>>, <<<<2000, CR>>, <<2001, LF>>>>}}
